@@ -1367,6 +1367,12 @@ func (ex *executor) judgeDiskFault(idx int, class string, st *Step, xc *Exchange
 			if c.Op == "remove" || c.Op == "unlinkat" {
 				removePhase = true
 			}
+			if _, own := written[c.Path]; own && (c.Op == "stat" || c.Op == "lstat") {
+				// the request could not look at a file it had created itself: a
+				// clean-up that first makes sure the file is (still) its own is
+				// impaired just like one whose remove call fails
+				removePhase = true
+			}
 			continue
 		}
 		if !c.Writable || c.Err != "" {
@@ -1431,12 +1437,16 @@ func (ex *executor) judgeDiskFault(idx int, class string, st *Step, xc *Exchange
 		case isOld:
 		case isNew && complete:
 			ex.probe("disk-fault-after-commit")
+		case removePhase && !hadOld && hasNow && !now.Dir:
+			// the stray file of an impaired clean-up, under a name that happens
+			// to be the target's (there was nothing at the target to destroy)
+			ex.probe("leftover-of-an-impaired-clean-up-at-the-target")
 		default:
 			add("torn-after-disk-fault", fmt.Sprintf("injected %s; PUT answered %d; the target holds neither its complete old content nor the complete new one (old: %s, now: %s)", what, xc.Resp.Status, descEntry(old, hadOld), descEntry(now, hasNow)))
 			return
 		}
 	}
-	// no stray names, unless a remove call was the one that failed
+	// no stray names, unless a call of the clean-up was the one that failed
 	for p := range after {
 		if _, ok := ex.snap[p]; !ok && p != np.Path && !removePhase {
 			add("leftover", fmt.Sprintf("injected %s; PUT answered %d; a new name %s was left behind", what, xc.Resp.Status, p))
